@@ -2,6 +2,7 @@ package main
 
 import (
 	"bytes"
+	"encoding/base64"
 	"encoding/json"
 	"fmt"
 	"math/big"
@@ -184,6 +185,8 @@ func (g *c07Gen) doc() J {
 		fixG["n_"+f] = J{"type": "integer", "format": f}
 	}
 	schemas["FixG"] = J{"type": "object", "properties": fixG}
+	// an array of uint8 items is a []uint8, which Go treats as []byte
+	schemas["FixI"] = J{"type": "object", "properties": J{"octets": J{"type": "array", "items": J{"type": "integer", "format": "uint8"}}, "words": J{"type": "array", "items": J{"type": "integer", "format": "uint16"}}}}
 	// a union with optional members of its own, nullable and not: an absent one that is not nullable must stay absent
 	schemas["FixH"] = J{"type": "object", "required": []interface{}{"id"},
 		"properties": J{"id": J{"type": "integer"}, "title": J{"type": "string"}, "note": J{"type": "string", "nullable": true}, "size": J{"type": "integer", "format": "int64"}},
@@ -416,6 +419,21 @@ func c07Equal(in, out interface{}, path string) string {
 	case []interface{}:
 		b, ok := out.([]interface{})
 		if !ok {
+			if str, isStr := out.(string); isStr {
+				// []uint8 is []byte: encoding/json writes it as base64
+				if raw, err := base64.StdEncoding.DecodeString(str); err == nil && len(raw) == len(a) {
+					same := true
+					for i := range a {
+						n, isNum := a[i].(json.Number)
+						if !isNum || string(n) != fmt.Sprint(int(raw[i])) {
+							same = false
+						}
+					}
+					if same {
+						return fmt.Sprintf("%s: byte array became base64 string %q", path, str)
+					}
+				}
+			}
 			if len(a) == 0 && out == nil {
 				return fmt.Sprintf("%s: empty array became null", path)
 			}
@@ -491,7 +509,7 @@ func diffClass(d string) string {
 		return "other"
 	}
 	rest := d[i+2:]
-	for _, k := range []string{"absent non-nullable member became null", "explicit null of a required member lost", "explicit null lost", "member lost", "member invented", "empty array became null", "array length", "number", "string", "null became", "object became", "array became"} {
+	for _, k := range []string{"byte array became base64 string", "absent non-nullable member became null", "explicit null of a required member lost", "explicit null lost", "member lost", "member invented", "empty array became null", "array length", "number", "string", "null became", "object became", "array became"} {
 		if strings.HasPrefix(rest, k) {
 			return strings.ReplaceAll(k, " ", "-")
 		}
